@@ -22,7 +22,8 @@ pub mod ops_timer;
 /// natively the same bodies are reachable through `run(name, tape)`.
 macro_rules! harnesses {
     (plain: [$( ($pm:ident :: $pn:ident, $pu:literal) ),* $(,)?],
-     stubbed: [$( ($sm:ident :: $sn:ident, $su:literal) ),* $(,)?]) => {
+     stubbed: [$( ($sm:ident :: $sn:ident, $su:literal) ),* $(,)?],
+     native: [$( $nm:ident :: $nn:ident ),* $(,)?]) => {
         #[cfg(kani)]
         mod proofs {
             use super::kit::KaniSrc;
@@ -57,6 +58,7 @@ macro_rules! harnesses {
             match name {
                 $( stringify!($pn) => { $pm::$pn(&mut s); } )*
                 $( stringify!($sn) => { $sm::$sn(&mut s); } )*
+                $( stringify!($nn) => { $nm::$nn(&mut s); } )*
                 _ => return None,
             }
             Some(kit::Src::ok(&s))
@@ -81,6 +83,8 @@ harnesses! {
         (h_members::c14_next_k4, 8),
         (h_members::c14_next_k5, 8),
         (h_misc::c08_accumulating_runtime, 7),
+        (h_misc::c15_key_same_addr, 7),
+        (h_misc::c15_key_diff_addr, 7),
     ],
     stubbed: [
         (h_c11::c11_timeout_iff, 7),
@@ -140,6 +144,7 @@ harnesses! {
         (h_misc::c06_fuzz_feed_2, 7),
         (h_misc::c06_fuzz_turnundead_3, 7),
         (h_misc::c06_set_config_same, 7),
+        (h_misc::c06_set_config_gossip, 7),
         (h_misc::c06_set_config_grow, 7),
         (h_misc::c06_set_config_shrink, 7),
         (h_misc::c16_add_broadcast, 7),
@@ -166,5 +171,8 @@ harnesses! {
         (ops_data::d_ack_upd, 7),
         (ops_data::d_gossip_custom, 7),
         (ops_data::d_broadcast_custom, 7),
+    ],
+    native: [
+        h_members::e4_can_change,
     ]
 }
